@@ -264,6 +264,10 @@ pub struct SigCase {
     /// two signatures): the accept/refuse decision is about the signatures all the same
     #[serde(default)]
     pub same_address: bool,
+    /// the installation is attempted by tear-down code that runs while the thread is unwinding
+    /// from an earlier panic (a fixture's `Drop`); the attempt is caught inside that destructor
+    #[serde(default)]
+    pub while_unwinding: bool,
 }
 
 #[derive(Serialize, Deserialize, Clone, Debug, Hash, PartialEq, Eq)]
@@ -275,6 +279,8 @@ pub struct BoolCase {
     /// for experiments only: what to do with such a string is nobody's claim, so it is not generated)
     #[serde(default)]
     pub untyped: u8,
+    #[serde(default)]
+    pub while_unwinding: bool,
 }
 
 #[derive(Serialize, Deserialize, Clone, Debug, Default)]
@@ -326,7 +332,7 @@ pub fn execute_sig(c: &SigCase) -> SigObs {
     let api = c.api;
     let mutation = c.mutation.clone();
     crate::worker::phase("install");
-    let r = std::panic::catch_unwind(std::panic::AssertUnwindSafe(|| {
+    let attempt = || std::panic::catch_unwind(std::panic::AssertUnwindSafe(|| {
         ip::sut(|| unsafe {
             let mut inj = InjectorPP::new();
             let tptr = if mutation == Mutation::NullTarget { std::ptr::null() } else { taddr as *const () };
@@ -341,6 +347,7 @@ pub fn execute_sig(c: &SigCase) -> SigObs {
             inj
         })
     }));
+    let r = if c.while_unwinding { crate::worker::while_unwinding(attempt) } else { attempt() };
     let log = ip::log_snapshot();
     o.interposed_calls = log.len() as u64;
     o.bytes_changed_during_attempt = crate::mem::read_direct(taddr, 32) != before;
@@ -384,7 +391,7 @@ pub fn execute_bool(c: &BoolCase) -> SigObs {
         o.sig_a = if untyped == 3 { format!("<not a signature: {junk:?}>") } else { "<no recorded signature>".into() };
     }
     crate::worker::phase("install");
-    let r = std::panic::catch_unwind(std::panic::AssertUnwindSafe(|| {
+    let attempt = || std::panic::catch_unwind(std::panic::AssertUnwindSafe(|| {
         ip::sut(|| unsafe {
             let mut inj = InjectorPP::new();
             match untyped {
@@ -396,6 +403,7 @@ pub fn execute_bool(c: &BoolCase) -> SigObs {
             inj
         })
     }));
+    let r = if c.while_unwinding { crate::worker::while_unwinding(attempt) } else { attempt() };
     o.interposed_calls = ip::log_snapshot().len() as u64;
     o.bytes_changed_during_attempt = crate::mem::read_direct(taddr, 32) != before;
     match r {
@@ -439,10 +447,11 @@ pub fn sig_case_strategy() -> impl Strategy<Value = SigCase> {
     (sig_strategy(), mutation_strategy(), 0u8..2).prop_map(|(sig, mutation, api)| {
         // mutations that cannot apply to this structure degrade to the identical pair
         let mutation = if mutate(&sig, &mutation).is_none() { Mutation::None } else { mutation };
-        SigCase { sig, mutation, api, same_address: false }
+        SigCase { sig, mutation, api, same_address: false, while_unwinding: false }
     })
-    .prop_flat_map(|c| (Just(c), prop::bool::weighted(0.12)).prop_map(|(mut c, same)| {
+    .prop_flat_map(|c| (Just(c), prop::bool::weighted(0.12), prop::bool::weighted(0.15)).prop_map(|(mut c, same, unw)| {
         c.same_address = same && !matches!(c.mutation, Mutation::NullReplacement | Mutation::NullTarget);
+        c.while_unwinding = unw;
         c
     }))
 }
@@ -469,9 +478,10 @@ pub fn bool_case_strategy() -> impl Strategy<Value = BoolCase> {
     ];
     // parameters may themselves contain `-> bool`
     let param = prop_oneof![3 => ty_strategy(), 1 => Just(fnbool(vec![], false, 0)), 1 => Just(Ty::DynFn(Box::new(b())))];
-    (prop::collection::vec(param, 0..=5), ret, any::<bool>(), prop_oneof![3 => Just(0u8), 1 => Just(1u8), 1 => Just(2u8)], any::<bool>()).prop_map(|(params, ret, unsafe_, abi, value)| BoolCase { sig: FnSig { unsafe_: unsafe_ || abi != 0, abi, params, ret }, value, untyped: 0 })
-        .prop_flat_map(|c| (Just(c), prop_oneof![12 => Just(0u8), 1 => Just(1u8), 1 => Just(2u8)]).prop_map(|(mut c, u)| {
+    (prop::collection::vec(param, 0..=5), ret, any::<bool>(), prop_oneof![3 => Just(0u8), 1 => Just(1u8), 1 => Just(2u8)], any::<bool>()).prop_map(|(params, ret, unsafe_, abi, value)| BoolCase { sig: FnSig { unsafe_: unsafe_ || abi != 0, abi, params, ret }, value, untyped: 0, while_unwinding: false })
+        .prop_flat_map(|c| (Just(c), prop_oneof![12 => Just(0u8), 1 => Just(1u8), 1 => Just(2u8)], prop::bool::weighted(0.15)).prop_map(|(mut c, u, unw)| {
             c.untyped = u;
+            c.while_unwinding = unw;
             c
         }))
 }
@@ -511,6 +521,9 @@ pub fn judge_sig(rec: &mut Recorder, c: &SigCase, ex: Exec, _hello: &Value) -> R
     let mname = format!("{:?}", c.mutation);
     let mname = mname.split('(').next().unwrap_or("").to_string();
     rec.class(&format!("mutation/{mname}"));
+    if c.while_unwinding {
+        rec.class(if c.mutation == Mutation::None { "attempted-from-tear-down-while-unwinding/identical" } else { "attempted-from-tear-down-while-unwinding/different" });
+    }
     let sig = |s: &str| format!("C09/native-strings/{s}");
     match c.mutation {
         Mutation::None => {
@@ -566,6 +579,9 @@ pub fn judge_bool(rec: &mut Recorder, c: &BoolCase, ex: Exec, _hello: &Value) ->
         (false, true) => "look-alike-ending-in-bool",
         (false, false) => "other-return-type",
     });
+    if c.while_unwinding {
+        rec.class(if is_bool { "attempted-from-tear-down-while-unwinding/bool" } else { "attempted-from-tear-down-while-unwinding/non-bool" });
+    }
     let sig = |s: &str| format!("C10/native-strings/{s}");
     if is_bool {
         if let Some(p) = &o.panic {
